@@ -36,7 +36,9 @@ def _read_contract(cid, reqs):
     elif n == 1:
         replies = f"[head + {parts[0]}]"
     else:
-        replies = "[spec.logix.multi_reply(head, [" + ", ".join(parts) + "])]"
+        # a controller answers the packet itself with 0x1E (embedded service error) when any embedded service failed
+        params["outer"] = P.oneof(P.const("0"), P.const("0x1e"))
+        replies = "[spec.logix.multi_reply(head, [" + ", ".join(parts) + "], outer)]"
     res = "result" if n == 1 else "result[{i}]"
     if n > 1:
         ens.append(f"isinstance(result, list) and len(result) == {n}")
@@ -104,7 +106,8 @@ def _write_contract(cid, reqs):
     elif n == 1:
         replies = f"[head + {parts[0]}]"
     else:
-        replies = "[spec.logix.multi_reply(head, [" + ", ".join(parts) + "])]"
+        params["outer"] = P.oneof(P.const("0"), P.const("0x1e"))
+        replies = "[spec.logix.multi_reply(head, [" + ", ".join(parts) + "], outer)]"
     res = "result" if n == 1 else "result[{i}]"
     if n > 1:
         ens.append(f"isinstance(result, list) and len(result) == {n}")
